@@ -108,7 +108,9 @@ def setupResolver (env : Env) (cfg : Cfg) (schema : Json) (p : Json) : Res RStat
   let base := match fld r "base" with
     | some (.str b) => b
     | _ => match schema with
-      | .obj kvs => match Json.lookup cfg.idKey kvs with | some (.str s) => s | _ => []
+      | .obj kvs =>
+        if Json.hasKey (skey "$ref") kvs then [] else
+        match Json.lookup cfg.idKey kvs with | some (.str s) => s | _ => []
       | _ => []
   let cacheRemote := match fld r "cacheRemote" with | some (.bool b) => b | _ => true
   let memoCap := match fld r "memoCap" with | some .null => none | some j => asNatJ j | none => some 1024
